@@ -308,7 +308,7 @@ impl Prop for C12 {
     fn runs(&self, tier: Tier) -> u64 {
         N_ENUM
             + match tier {
-                Tier::Quick => 5000,
+                Tier::Quick => 30_000,
                 Tier::Thorough => 150_000,
             }
     }
